@@ -306,6 +306,7 @@ class EngineRun:
         self.polled = set()
         self.done = False
         self.sent_at_close = None
+        self.oneway = []
 
     # -- log ------------------------------------------------------------------------------------
     def poll_futures(self):
@@ -436,10 +437,10 @@ class EngineRun:
                 self._reorder_created()
             elif op == 'FNF':
                 self.mark('FNF:%s' % tstr(s['data']))
-                ep.fire_and_forget(P(s['data']))
+                self.oneway.append(('fnf', len(self.glog), ep.fire_and_forget(P(s['data']))))
             elif op == 'MP':
                 self.mark('MP:%s' % tstr(s['data']))
-                ep.metadata_push(tags_to_bytes(s['data']))
+                self.oneway.append(('mp', len(self.glog), ep.metadata_push(tags_to_bytes(s['data']))))
             elif op == 'RS':
                 self.mark('RS:%s:%d:%d' % (tstr(s['data']), s['n'], 1 if s['sub'] else 0))
                 req = ep.request_stream(P(s['data']))
@@ -548,6 +549,8 @@ class EngineRun:
             'receiver_alive': ep._receiver_task is not None and not ep._receiver_task.done(),
             'sent_after_close': (len(self.t.sent) - self.sent_at_close) if self.sent_at_close is not None else 0,
             'transport_closed': self.t.closed,
+            'oneway_pending': [k for k, at, f in self.oneway if not f.done() and at < self._first_loss_index()],
+            'oneway_total': len(self.oneway),
         }
         self.poll_futures()
         self.done = True
@@ -557,6 +560,12 @@ class EngineRun:
             pass
         CURRENT = None
         return res
+
+    def _first_loss_index(self):
+        for i, (kind, tok) in enumerate(self.glog):
+            if kind == 'M' and tok in ('LOST', 'STOP'):
+                return i
+        return -1
 
     def steps(self):
         """[(marker, [outputs])], future results moved to the end of their step"""
